@@ -42,6 +42,13 @@ func c20Fixed() []c20Scenario {
 		{Name: "byzantine-dealer-disqualified", Plain: true, Sc: Scenario{N: 4, T: 2, L: 8, Order: []int{3, 1, 0, 2}, Byz: map[int]ByzStrategy{3: silent}, Fair: true}},
 		// honest k0 gets a bad eval and sleeps through the accusing phase: its DKG fails, k1's succeeds
 		{Name: "one-honest-keyper-fails", Plain: true, Sc: Scenario{N: 3, T: 2, L: 8, Order: []int{1, 2, 0}, Byz: map[int]ByzStrategy{2: misser}, Stalls: []stall{{Pos: 0, From: 6, Len: 12}}}},
+		// two overlapping key generations of two keyper sets (index 1 and 2) with exactly the same
+		// ordered keyper list; the second starts 1, 4, 10, 18 blocks after the first
+		{Name: "overlap-identical-list+1", Plain: true, Sc: Scenario{N: 3, T: 2, L: 8, Order: []int{0, 1, 2}, Byz: map[int]ByzStrategy{}, Fair: true, Overlap: &overlapSpec{At: 0, Rot: 0}}},
+		{Name: "overlap-identical-list+4", Plain: true, Sc: Scenario{N: 3, T: 2, L: 8, Order: []int{2, 0, 1}, Byz: map[int]ByzStrategy{}, Fair: true, ForkEnabled: true, Overlap: &overlapSpec{At: 4, Rot: 0}}},
+		{Name: "overlap-identical-list+10", Plain: true, Sc: Scenario{N: 4, T: 2, L: 8, Order: []int{3, 1, 0, 2}, Byz: map[int]ByzStrategy{}, Fair: true, Overlap: &overlapSpec{At: 10, Rot: 0}}},
+		{Name: "overlap-identical-list+18", Plain: true, Sc: Scenario{N: 3, T: 2, L: 8, Order: []int{1, 2, 0}, Byz: map[int]ByzStrategy{}, Fair: true, Overlap: &overlapSpec{At: 18, Rot: 0}}},
+		{Name: "overlap-rotated-list+4", Plain: true, Sc: Scenario{N: 3, T: 2, L: 8, Order: []int{0, 1, 2}, Byz: map[int]ByzStrategy{}, Fair: true, Overlap: &overlapSpec{At: 4, Rot: 1}}},
 		// t = n and one keyper misses the dealing phase: the DKG fails for everybody, three
 		// DKGResult(false) votes make shuttermint start a new eon for the same keyper set, which succeeds
 		{Name: "failed-then-restarted", Plain: true, Sc: Scenario{N: 3, T: 3, L: 8, Order: []int{0, 1, 2}, Byz: map[int]ByzStrategy{}, Stalls: []stall{{Pos: 2, From: 2, Len: 8}}}},
@@ -98,7 +105,7 @@ func c20PubString(ps []c20Pub) string {
 
 func TestC20_FinalizedDKGQueuesEonKey(t *testing.T) {
 	rec := recorder("C20")
-	rec.AddRule("production side (package dkgprops): complete DKG runs over faketm with the real follower code on pgfake (fixed scenarios: all honest; Byzantine dealer that stays qualified; Byzantine dealer disqualified, n=4; one honest keyper whose DKG fails while the other succeeds; t=n DKG that fails for everybody and is restarted by shuttermint as a new eon; plus scenarios drawn from C07's generator). Per honest keyper and eon: a dkg_result row with success => exactly one outgoing_eon_keys row for that eon whose key is the PublicKey of its stored result and the key of every other successful honest keyper; failure or no result => no row. Then the real eonPubKeyHandler (alternating broadcast / callback mode) runs on that database: it must publish exactly these keys, each once, with its eon number and the activation block and keyper-set index of that eon's keyper set (set 1 / block 100; in scenarios with two overlapping key generations also set 2 / block 200), correctly signed in broadcast mode, and leave the table empty; a second tick publishes nothing. non-trivial = the run has a Byzantine keyper, a failed DKG row or a restarted eon; distinct = scenario + schedule")
+	rec.AddRule("production side (package dkgprops): complete DKG runs over faketm with the real follower code on pgfake (fixed scenarios: all honest; Byzantine dealer that stays qualified; Byzantine dealer disqualified, n=4; one honest keyper whose DKG fails while the other succeeds; t=n DKG that fails for everybody and is restarted by shuttermint as a new eon; two overlapping key generations of keyper sets 1 and 2 with the identical ordered keyper list, the second starting 1/4/10/18 blocks after the first, and one with a rotated list; plus scenarios drawn from C07's generator). Per honest keyper and eon: a dkg_result row with success => exactly one outgoing_eon_keys row for that eon whose key is the PublicKey of its stored result and the key of every other successful honest keyper; failure or no result => no row. Then the real eonPubKeyHandler (alternating broadcast / callback mode) runs on that database: it must publish exactly these keys, each once, with its eon number and the activation block and keyper-set index of that eon's keyper set (set 1 / block 100; in scenarios with two overlapping key generations also set 2 / block 200), correctly signed in broadcast mode, and leave the table empty; a second tick publishes nothing. non-trivial = the run has a Byzantine keyper, a failed DKG row or a restarted eon; distinct = scenario + schedule")
 	rec.Assume(
 		"pgfake executes the repository's schema and queries like PostgreSQL",
 		"faketm delivers broadcasts into the open block immediately; sequential schedule",
@@ -309,6 +316,9 @@ func TestC20_FinalizedDKGQueuesEonKey(t *testing.T) {
 		}
 		if cs.Sc.Overlap != nil && len(eonMeta) > 1 {
 			labels = append(labels, "dkgprops:two-overlapping-eons")
+			if cs.Sc.Overlap.Rot%cs.Sc.N == 0 {
+				labels = append(labels, "dkgprops:overlapping-eons-identical-ordered-keyper-list")
+			}
 		}
 		nSets := map[uint64]bool{}
 		for _, m := range eonMeta {
